@@ -15,7 +15,7 @@ from .csrc import ExtractError
 # rules whose case body is translated into the IR and proved equal to the Op.step case in Peg/TieSkel.lean
 IR_RULES = ["RULE_IF", "RULE_IFNOT", "RULE_NOT", "RULE_DROP", "RULE_ONLY_TAGS", "RULE_SUB", "RULE_ACCUMULATE", "RULE_CAPTURE",
             "RULE_POSITION", "RULE_CONSTANT", "RULE_GROUP", "RULE_NTH", "RULE_ERROR", "RULE_BETWEEN", "RULE_TO", "RULE_THRU", "RULE_TIL", "RULE_CHOICE", "RULE_SEQUENCE", "RULE_LENPREFIX", "RULE_SPLIT", "RULE_REPLACE", "RULE_MATCHTIME", "RULE_NCHAR", "RULE_NOTNCHAR", "RULE_LINE", "RULE_COLUMN", "RULE_ARGUMENT",
-            "RULE_LITERAL", "RULE_RANGE", "RULE_SET", "RULE_LOOK", "RULE_GETTAG", "RULE_BACKMATCH", "RULE_CAPTURE_NUM", "RULE_UNREF"]
+            "RULE_LITERAL", "RULE_RANGE", "RULE_SET", "RULE_LOOK", "RULE_GETTAG", "RULE_BACKMATCH", "RULE_CAPTURE_NUM", "RULE_UNREF", "RULE_READINT"]
 
 
 class Unsupported(Exception):
@@ -263,6 +263,7 @@ class Extract:
         self.bitmask = {}             # `uint32_t mask = (uint32_t)1 << (P[O] & 0x1F)` -> (P, O)
         self.strof = {}               # `const uint8_t *bytes = janet_unwrap_string(v)` -> val index
         self.dbl = set()              # `double x` out-parameters of janet_scan_number_base (kept as value locals)
+        self.wbit = {}                # `uint32_t signedness = rule[1] & 0x10` -> (k, bit)
 
     def clone(self):
         e = Extract()
@@ -273,7 +274,7 @@ class Extract:
         e.numdef, e.lencap, e.valdef = dict(self.numdef), dict(self.lencap), dict(self.valdef)
         e.arr = {k: dict(v) for k, v in self.arr.items()}
         e.wexpr, e.ptroff, e.bitword, e.bitmask = dict(self.wexpr), dict(self.ptroff), dict(self.bitword), dict(self.bitmask)
-        e.strof, e.dbl = dict(self.strof), set(self.dbl)
+        e.strof, e.dbl, e.wbit = dict(self.strof), set(self.dbl), dict(self.wbit)
         if hasattr(self, "signed_word"):
             e.signed_word = set(self.signed_word)
         return e
@@ -388,6 +389,17 @@ class Extract:
         m = re.fullmatch(r"s -> tagged_captures -> data \[ (\w+) \]", s)
         if m and m.group(1) in self.num:
             return "(.taggedAt %d)" % self.num[m.group(1)]
+        m = re.fullmatch(r"(janet_wrap_s64 \( )?peg_convert_u64_s64 \( (\w+) , (\w+) \)( \))?", s)
+        if m and bool(m.group(1)) == bool(m.group(4)) and m.group(2) in self.num and self.is_word(m.group(3)):
+            return "(.%s %d %s)" % ("s64Of" if m.group(1) else "numSigned", self.num[m.group(2)], self.we([m.group(3)]))
+        m = re.fullmatch(r"janet_wrap_u64 \( (\w+) \)", s)
+        if m and m.group(1) in self.num:
+            return "(.u64Of %d)" % self.num[m.group(1)]
+        m = re.fullmatch(r"janet_wrap_number \( (\w+) \)", s)
+        if m and m.group(1) in self.dbl:
+            return "(.copy %d)" % self.val[m.group(1)]
+        if len(toks) == 1 and toks[0] in self.num and not toks[0].startswith("%"):
+            return "(.numOf %d)" % self.num[toks[0]]
         raise Unsupported("value expression `%s`" % s)
 
     def cond(self, toks):
@@ -504,6 +516,14 @@ class Extract:
             n = self.tmp_num("%d[%s]" % (self.ptr[p_], o))
             pre.append(".readByte %d %d %s" % (n, self.ptr[p_], o))
             return ".bitSet %d %d" % (b, n)
+        if len(toks) == 1 and toks[0] in self.wbit:
+            return ".wordBit %d %d" % self.wbit[toks[0]]
+        m = re.fullmatch(r"(\w+) > (\d+)", s)
+        if m and m.group(1) in self.wexpr:
+            return ".weGt %s (.lit %s)" % (self.wexpr[m.group(1)], m.group(2))
+        m = re.fullmatch(r"(\w+) \+ (\w+) > s -> text_end", s)
+        if m and m.group(1) in self.ptr and m.group(1) not in self.ptroff and m.group(2) in self.wexpr:
+            return ".ptrPlusGtEnd %d %s" % (self.ptr[m.group(1)], self.wexpr[m.group(2)])
         m = re.fullmatch(r"(\w+) (<|>=) s -> text_end", s)
         if m and m.group(1) in self.ptr and m.group(1) not in self.ptroff:
             c = ".ptrLtEnd %d" % self.ptr[m.group(1)]
@@ -635,7 +655,21 @@ class Extract:
         if m and m.group(2) in self.ptr:
             self.bitmask[m.group(1)] = (m.group(2), m.group(3))
             return []
-        m = re.fullmatch(r"double (\w+) = 0(?: \. 0)?", s)
+        m = re.fullmatch(r"(?:uint32_t|int32_t|int) (\w+) = rule \[ (\d+) \] & 0[xX]([0-9a-fA-F]+)", " ".join(unparen(toks[:3] + unparen(toks[3:]))) if len(toks) > 3 else s)
+        if m and bin(int(m.group(3), 16)).count("1") == 1:
+            self.wbit[m.group(1)] = (int(m.group(2)), int(m.group(3), 16).bit_length() - 1)
+            return []
+        m = re.fullmatch(r"(\w+) = \( (\w+) << 8 \) \| (\w+) \[ (\w+) \]", s)
+        if m and m.group(1) == m.group(2) and m.group(1) in self.num and self.numdef.get(m.group(1)) == ("u64",) and m.group(3) in self.ptr \
+                and m.group(3) not in self.ptroff and m.group(4) in self.num:
+            return [".accByte %d %d %d" % (self.num[m.group(1)], self.ptr[m.group(3)], self.num[m.group(4)])]
+        m = re.fullmatch(r"uint64_t (\w+) = 0", s)
+        if m:
+            if m.group(1) not in self.num:
+                self.num[m.group(1)] = len(self.num)
+            self.numdef[m.group(1)] = ("u64",)
+            return [".numDef %d (.lit 0)" % self.num[m.group(1)]]
+        m = re.fullmatch(r"double (\w+)(?: = 0(?: \. 0)?)?", s)
         if m:
             if m.group(1) not in self.val:
                 self.val[m.group(1)] = len(self.val)
@@ -745,7 +779,7 @@ class Extract:
             rs = " ".join(rhs)
             if ty is None and star:
                 raise Unsupported("statement `%s`" % s)
-            if ty in ("uint32_t", "int32_t") and not star and re.fullmatch(r"\d+", rs):
+            if ty in ("uint32_t", "int32_t", "int") and not star and re.fullmatch(r"\d+", rs):
                 if name not in self.num:
                     self.num[name] = len(self.num)
                 return [".numDef %d (.lit %s)" % (self.num[name], rs)]
@@ -800,6 +834,8 @@ class Extract:
                 return [".ptrCopy %d %d" % (self.new_ptr(name), src)]
             if ty is None and not star and name in self.val:
                 return [".valDef %d %s" % (self.val[name], self.vexpr(rhs))]
+            if ty is None and not star and name in self.num and self.numdef.get(name) == ("u64",):
+                raise Unsupported("statement `%s`" % s)
             if ty is None and name == "rule":
                 self.pending_rule = self.rule_e(rhs)
                 return []
@@ -955,6 +991,13 @@ def conv(stmts, ex, end=".fall", loops=None):
         # for (int32_t i = BOUND - 1; i >= 0; i--) body      ->  .downLoop i BOUND body rest
         init, cnd, fbody = " ".join(strip_casts(st[1])), " ".join(strip_casts(st[2])), st[4]
         m = re.fullmatch(r"int32_t (\w+) = s -> tags -> count - 1", init)
+        bound, ctor = ".tagCount", "downLoop"
+        if not m:
+            m = re.fullmatch(r"(?:int32_t|int) (\w+) = (\w+) - 1", init)
+            if m and m.group(2) in ex.wexpr:
+                bound, ctor = ex.wexpr[m.group(2)], "downLoopW"
+            else:
+                m = None
         if not m or cnd != "%s >= 0" % m.group(1):
             raise Unsupported("descending for header `%s ; %s`" % (init, cnd))
         i = m.group(1)
@@ -975,7 +1018,7 @@ def conv(stmts, ex, end=".fall", loops=None):
         body = conv([fbody], exb, ".cont", loops)
         after = conv(rest, exb, end, loops)
         loops.append((body, after))
-        return "(.downLoop %d .tagCount LOOPBODY%d LOOPREST%d)" % (ex.num[i], len(loops) - 1, len(loops) - 1)
+        return "(.%s %d %s LOOPBODY%d LOOPREST%d)" % (ctor, ex.num[i], bound, len(loops) - 1, len(loops) - 1)
     if k == 'for':
         init, cnd, inc, fbody = st[1], st[2], st[3], st[4]
         pre = ex.simple(init)
@@ -1021,7 +1064,7 @@ def conv(stmts, ex, end=".fall", loops=None):
         if len(toks) == 1 and toks[0] in ex.ptroff:
             raise Unsupported("return of a displaced pointer")
         m = re.fullmatch(r"(\w+) \+ (\w+)", " ".join(toks))
-        if m and m.group(1) in ex.ptr and m.group(1) not in ex.ptroff and (m.group(2) in ex.word or re.fullmatch(r"\d+", m.group(2))):
+        if m and m.group(1) in ex.ptr and m.group(1) not in ex.ptroff and (ex.is_word(m.group(2)) or re.fullmatch(r"\d+", m.group(2))):
             return "(.retPlus %d %s)" % (ex.ptr[m.group(1)], ex.we([m.group(2)]))
         if m and m.group(1) in ex.ptr and m.group(1) not in ex.ptroff and m.group(2) in ex.num:
             return "(.retPlusNum %d %d)" % (ex.ptr[m.group(1)], ex.num[m.group(2)])
@@ -1065,8 +1108,16 @@ def conv(stmts, ex, end=".fall", loops=None):
     return tail
 
 
+INT_TYPES = [True]          # set by extract(): is JANET_INT_TYPES defined in the configuration that is built
+
+
 def extract_ir(case_text):
     """-> (program source with LOOPBODYn / LOOPRESTn placeholders, [(body, rest)])"""
+    if "#" in case_text:
+        # `#ifdef JANET_INT_TYPES ... #endif` (no #else): kept as it is compiled in the default configuration
+        if not INT_TYPES[0] or re.search(r"^[ \t]*#[ \t]*(?!ifdef JANET_INT_TYPES\b|endif\b)", case_text, re.M):
+            raise Unsupported("preprocessor conditional other than `#ifdef JANET_INT_TYPES ... #endif`")
+        case_text = re.sub(r"^[ \t]*#[ \t]*(ifdef JANET_INT_TYPES|endif)[ \t]*$", "", case_text, flags=re.M)
     loops = []
     return conv(parse_case(case_text), Extract(), ".fall", loops), loops
 
@@ -1137,6 +1188,8 @@ def extract(tree):
     src = csrc.strip_comments(csrc.read(tree, "src/core/peg.c"))
     OPCODES.clear()
     OPCODES.update(csrc.enum_values(csrc.strip_comments(csrc.read(tree, "src/include/janet.h")), "RULE_LITERAL"))
+    conf = csrc.strip_comments(csrc.read(tree, "src/conf/janetconf.h"))
+    INT_TYPES[0] = not re.search(r"^[ \t]*#[ \t]*define[ \t]+JANET_NO_INT_TYPES\b", conf, re.M)
     body = csrc.func_body(src, "peg_rule")
     progs, problems, canons, loops = {}, {}, {}, {}
     for labels, text in gen_peg.split_cases(body):
